@@ -843,6 +843,7 @@ func asWorldGen(r *Run, rng *Rng, w *asWorld, steps int) {
 		}
 		l2++
 		do(fmt.Sprintf("l2blk %d b:0:%d b:0:%d", l2, rng.U64()%1000000, rng.U64()%1000000))
+		do("epoch?") // first with the read of the last certificate failing: nothing may be built from "no certificate"
 		do("epoch")
 		if c := openCert(); c != nil {
 			do(fmt.Sprintf("move %d S", c.id))
